@@ -89,7 +89,8 @@ package eni
 
 //@ ghost c06can bool = false
 //@ func Local.Dispose
-//@   requires l != nil
+//@   requires l != nil && n >= 0
+//@   ensures result >= 0
 //@   at call Local.canDispose: ghost c06can = result
 //@ # the whole interface is given up only right after canDispose said yes, under the same lock
 //@ guard store Local.status in Dispose: value != 3 || c06can
@@ -174,3 +175,17 @@ package eni
 //@   loop 1 invariant forall i int :: 0 <= i && i < len(netConf) ==> confComplete(netConf[i])
 //@   loop 1 invariant forall i int, j int :: 0 <= i && i < j && j < len(netConf) ==> netConf[i] != netConf[j]
 //@   loop 1 invariant forall i int :: 0 <= i && i < len(netConf) ==> allocated(netConf[i]) && allocated(netConf[i].BasicInfo) && allocated(netConf[i].ENIInfo) && allocated(netConf[i].BasicInfo.PodIP) && allocated(netConf[i].BasicInfo.PodCIDR) && allocated(netConf[i].BasicInfo.GatewayIP)
+
+//@ for C06 C07
+
+//@ # ---- the pool balancer: shrinks by at most the idle surplus over maxIdles, grows by at most the deficit under minIdles,
+//@ # ---- and not at all once idle + in-use addresses reach the node's capacity
+//@ # interface contract (proved for Local.Dispose below; Trunk delegates to it, CRDV2 and Remote return 0)
+//@ func NetworkInterface.Dispose
+//@   trusted
+//@   ensures-assumed result >= 0
+//@ func Manager.syncPool
+//@   requires m != nil
+//@   loop 2 invariant toDel <= idles - m.maxIdles
+//@ guard call NetworkInterface.Dispose in syncPool: arg0 > 0 && arg0 <= idles - m.maxIdles
+//@ guard go Manager.syncPool$1 in syncPool: idles + inuses < m.total && i < m.minIdles - idles
